@@ -41,6 +41,8 @@ def jobs(tier, seed):
                     'tv': True, 'origin0': True})
     for gi, (cy, cx) in enumerate([(a, b) for a in compositions(2) for b in compositions(3)]):
         out.append({'name': 'all-symbolic-2x3-g%d' % gi, 'shape': [2, 3], 'chunks': [list(cy), list(cx)], 'maxd': 1.0, 'sym': 'all', 'metric': 'EUCLIDEAN', 'dy': -1.0})
+    for gi, (cy, cx) in enumerate([((1, 1), (1, 2)), ((2,), (2, 1))]):
+        out.append({'name': 'all-symbolic-2x3-int32-g%d' % gi, 'shape': [2, 3], 'chunks': [list(cy), list(cx)], 'maxd': 1.0, 'sym': 'all', 'metric': 'EUCLIDEAN', 'dy': -1.0, 'dtype': 'int32'})
     if tier != 'quick':
         allc = cells((h, w))
         pairs = [(p, q) for i, p in enumerate(allc) for q in allc[:i]]
@@ -59,7 +61,8 @@ def body(ctx, job):
     ys = coords_affine(h, 0.0 if job.get('origin0') else 10.0, dy)
     xs = coords_affine(w, 0.0 if job.get('origin0') else 100.0, 1.0)
     if job['sym'] == 'all':
-        data = ctx.array('d', (h, w), 'float64', nan=True)
+        dt = job.get('dtype', 'float64')
+        data = ctx.array('d', (h, w), dt, nan=True, **({'lo': -1, 'hi': 2} if dt[0] in 'iu' else {}))
     else:
         data = symnp.full((h, w), 5.0 if job.get('tv') else 0.0, 'float64')
         for (y, x) in job['sym']:
